@@ -847,6 +847,9 @@ fn main() {
         args.get(5).and_then(|s| s.parse().ok()).unwrap_or(6),
     );
     let thin = Thin::new(seed);
+    if family == "crdel" {
+        ctl::ENTRY_RELEASE_SEAM.store(true, Ordering::Relaxed);
+    }
     feoxdb::verif::install(thin.clone());
     let rep = Arc::new(Report::default());
     match family.as_str() {
